@@ -21,10 +21,16 @@ proto/iparse.py, proto/iparserecv.py:
       R5 in the raw functions: results of `hdr_decode` / `frame_decode` / `_read_hdr` are used only through the
          fields of `DParseHdr` / `DParseFrame` (`fid flen data err`), and `err` only in a comparison with
          `EParseError.NOERR` by `is` / `is not` (success is "no error", not "none of the errors I know");
+      R6 anywhere in these files: a frame id compared by IDENTITY (`is` / `is not` with an `EParseId.X` member, a
+         `.fid` field or a `fid` / `_id` variable on either side) — the id a codec reports only has to EQUAL the
+         `EParseId` number (a codec may hand out the plain int read off the wire, or a member of its own IntEnum);
   * the members each receive function must use (so that a use replaced by a literal is also seen as missing);
   * the builder table: every request / response builder reaches the codec exactly once, through `frame_create`,
     and RETURNS that call (`return self._frame.frame_create(id, payload)`, or `return None` where the builder
     may have nothing to send) — no frame is kept, cached or post-processed between the codec and the caller;
+  * the wrapper table: `Parser.frame_enable` / `Parser.frame_div` (tuple / ALL / BULK branches) never touch the codec
+    themselves and every `return` is the unedited result of one of the `_frame_set_*` builders of the builder table
+    (`return self._frame_set_single(EParseId.X, data, chan)`), i.e. every branch ends in the codec's `frame_create`;
   * the shape of the interface module proto/iframe.py: `ICommFrame` declares only abstract members (no state, no
     `__new__` / `__init__`, nothing a codec class would inherit), `DParseHdr` / `DParseFrame` are plain records
     of their fields, `EParseError` has exactly NOERR / ERR / HDR / FOOT.
@@ -47,6 +53,10 @@ BUILDERS = {"proto/parse.py": ["_frame_set_single", "_frame_set_bulk", "_frame_s
                                "frame_chinfo"],
             "proto/parserecv.py": ["frame_cmninfo_encode", "frame_chinfo_encode", "frame_stream_encode",
                                    "frame_ack_encode"]}
+# builders that reach the codec through another builder of BUILDERS: (function) -> the builders it may return
+WRAPPERS = {"proto/parse.py": {"frame_enable": ["_frame_set_single", "_frame_set_all", "_frame_set_bulk"],
+                               "frame_div": ["_frame_set_single", "_frame_set_all", "_frame_set_bulk"]}}
+ID_NAMES = {"fid", "_id"}
 REQUIRED = {("comm.py", "_read_hdr"): ["hdr_len", "hdr_find", "hdr_decode"],
             ("comm.py", "_read_frame"): ["frame_decode"],
             ("proto/parserecv.py", "recv_handle"): ["hdr_find", "hdr_len", "foot_len", "hdr_decode", "foot_validate"]}
@@ -125,6 +135,20 @@ def scan_file(repo, rel):
             lits.append((rel, where(n), n.lineno, "direct reference to SerialFrame"))
         elif isinstance(n, ast.Attribute) and n.attr in ("ESerialFrameHdr", "SerialFrame") and n not in default_nodes:
             lits.append((rel, where(n), n.lineno, "direct reference to " + n.attr))
+        # R6: frame ids are compared by value
+        if isinstance(n, ast.Compare) and any(isinstance(op, (ast.Is, ast.IsNot)) for op in n.ops):
+            operands = [n.left] + list(n.comparators)
+            for k, op in enumerate(n.ops):
+                if not isinstance(op, (ast.Is, ast.IsNot)):
+                    continue
+                for side in (operands[k], operands[k + 1]):
+                    txt = ast.unparse(side)
+                    if txt.startswith("EParseId.") or (isinstance(side, ast.Attribute) and side.attr == "fid") \
+                            or (isinstance(side, ast.Name) and side.id in ID_NAMES):
+                        lits.append((rel, where(n), n.lineno,
+                                     "frame id compared by identity (`" + ast.unparse(n)[:60] + "`): a codec may report the id "
+                                     "as any int equal to the EParseId number"))
+                        break
 
     # use table + R3
     members_of = {}
@@ -264,9 +288,30 @@ def scan_file(repo, rel):
         if not any(isinstance(r.value, ast.Call) for r in rets):
             good = False
         builders.append((rel, bname, ncreate, good))
+    # wrapper table: (function, number of returns, every return is the unedited result of one of its builders and the
+    # function does not touch the codec itself)
+    wrappers = []
+    for wname, targets in WRAPPERS.get(rel, {}).items():
+        fs = fdict.get(wname, [])
+        if not fs:
+            wrappers.append((rel, wname, 0, False))
+            continue
+        f = fs[0]
+        rets = [n for n in own_nodes(f) if isinstance(n, ast.Return)]
+        good = bool(rets) and not members_of.get(wname)
+        for r in rets:
+            v = r.value
+            if not (isinstance(v, ast.Call) and isinstance(v.func, ast.Attribute) and isinstance(v.func.value, ast.Name)
+                    and v.func.value.id == "self" and v.func.attr in targets and not v.keywords and v.args
+                    and ast.unparse(v.args[0]).startswith("EParseId.")):
+                good = False
+        # every target is itself a row of the builder table
+        if any(t not in BUILDERS.get(rel, []) for t in targets):
+            good = False
+        wrappers.append((rel, wname, len(rets), good))
     uses = [u[:4] for u in sorted(uses, key=lambda u: u[4])]
     lits.sort(key=lambda x: (x[2], x[3]))
-    return uses, lits, [n for n, _ in funcs], builders
+    return uses, lits, [n for n, _ in funcs], builders, wrappers
 
 
 def scan_interface(repo):
@@ -327,14 +372,15 @@ def scan_interface(repo):
 
 def gen_frameuse(repo):
     o = Out("FrameUse", imports=())
-    uses, lits, missing_req, builders, iface = [], [], [], [], []
+    uses, lits, missing_req, builders, wrappers, iface = [], [], [], [], [], []
     try:
         per_file = {}
         for rel in FILES:
-            u, l, fn, b = scan_file(repo, rel)
+            u, l, fn, b, w = scan_file(repo, rel)
             uses += u
             lits += l
             builders += b
+            wrappers += w
             per_file[rel] = (u, fn)
         iface = scan_interface(repo)
         for (rel, fn), req in REQUIRED.items():
@@ -384,8 +430,17 @@ def gen_frameuse(repo):
     for i, (a, b, c, d) in enumerate(builders):
         o.raw(f"  ({lstr(a)}, {lstr(b)}, {c}, {'true' if d else 'false'})" + ("," if i < len(builders) - 1 else ""))
     o.raw("]")
-    o.raw("/-- every builder row goes through the codec member `frame_create` exactly once and returns its result -/")
-    o.raw("def buildersUseCodec : Bool := builders.all fun r => r.2.2.1 == 1 && r.2.2.2")
+    o.raw("/-- builders that reach the codec through the builders above (`frame_enable` / `frame_div`: tuple, ALL and BULK "
+          "branch): (file, function, number of `return`s, no codec use of its own and every `return` is the unedited result "
+          "of a `_frame_set_*` row of `builders`) -/")
+    o.raw("def wrappers : List (String × String × Nat × Bool) := [")
+    for i, (a, b, c, d) in enumerate(wrappers):
+        o.raw(f"  ({lstr(a)}, {lstr(b)}, {c}, {'true' if d else 'false'})" + ("," if i < len(wrappers) - 1 else ""))
+    o.raw("]")
+    o.raw("/-- every builder row goes through the codec member `frame_create` exactly once and returns its result; every "
+          "wrapper row returns only such builders -/")
+    o.raw("def buildersUseCodec : Bool := (builders.all fun r => r.2.2.1 == 1 && r.2.2.2) && "
+          "(wrappers.all fun r => r.2.2.1 != 0 && r.2.2.2)")
     o.raw("/-- problems with the shape of proto/iframe.py: (class, line, what) -/")
     o.raw("def interfaceProblems : List (String × Nat × String) := [")
     for i, (a, b, c) in enumerate(iface):
@@ -393,7 +448,8 @@ def gen_frameuse(repo):
     o.raw("]")
     o.raw(f"def interfaceShape : Bool := {'true' if not iface else 'false'}"
           "  -- ICommFrame purely abstract, DParseHdr / DParseFrame plain records, EParseError = NOERR ERR HDR FOOT")
-    o.facts = {"uses": uses, "literals": lits, "missing": missing_req, "builders": builders, "interface": iface}
+    o.facts = {"uses": uses, "literals": lits, "missing": missing_req, "builders": builders, "wrappers": wrappers,
+               "interface": iface}
     return o
 
 
